@@ -366,13 +366,13 @@ def appendVals (r len : Nat) (vs : List Val) : M Val := do
       pure (.list r' newLen)
 
 /-- a list built by appending one element at a time to a nil slice (list literal) -/
-def newListLit (vs : List Val) : M Val := do
-  let mut cur := Val.list 0 0
-  for v in vs do
-    match cur with
-    | .list r l => cur ← appendVals r l [v]
-    | _ => pure ()
-  pure cur
+def appendEach : List Val → Nat → Nat → M Val
+  | [], r, l => pure (.list r l)
+  | v :: vs, r, l => do
+    match ← appendVals r l [v] with
+    | .list r' l' => appendEach vs r' l'
+    | x => pure x
+def newListLit (vs : List Val) : M Val := appendEach vs 0 0
 /-- `[]interface{}{a, b, …}` (capacity = length, never nil) -/
 def newListExact (vs : List Val) : M Val := do
   let r ← newBacking vs; pure (.list r vs.length)
@@ -877,27 +877,39 @@ def buildFrame (evalDefault : Node → M Val) (fr : FuncRec) (params : List (Opt
   setScope fvs { s with parent := some fr.declScope }
   pure fvs
 
-/-- the copy loop of addSuperClasses: every property of the template goes into the object; a function value is
-    copied as a NEW function bound to the object (`this`), the one under "init" also gets the list of the
-    super templates' init functions (`super`, absent when nothing was collected) and is remembered -/
+/-- `&function{f.name, nil, obj, f.declaration, f.declarationVS}` (+ super): a NEW function value, bound to the object -/
+def bindToObject (obj : Nat) (sup : Option Val) (id : Nat) : M Val := do
+  let fr ← (match (← get).funcs[id]? with
+    | some fr => pure fr
+    | none => throw (Sig.unsupported "dangling function id"))
+  let s ← get
+  set { s with funcs := s.funcs.push { fr with this := some (.map obj), super := sup } }
+  pure (Val.func s.funcs.size)
+
+/-- one property of the template goes into the object: a function value as a NEW function bound to the object
+    (`this`), the one under "init" also with the list of the super templates' init functions (`super`, absent
+    when nothing was collected); returns the stored value -/
+def copyProp (obj : Nat) (initSuper : List Val) (k v : Val) : M Val :=
+  match v with
+  | .func id => do
+    let sup ← (if keyEq k (.str initName) && !initSuper.isEmpty then do pure (some (← newListLit initSuper)) else pure none)
+    let nf ← bindToObject obj sup id
+    setMap obj (mapStore (← getMap obj) k nf)
+    pure nf
+  | _ => do
+    setMap obj (mapStore (← getMap obj) k v)
+    pure v
+
+def isFunc : Val → Bool
+  | .func _ => true
+  | _ => false
+
+/-- the copy loop of addSuperClasses over the template's properties; remembers the bound "init" function -/
 def copyProps (obj : Nat) (initSuper : List Val) : List (Val × Val) → Val → M Val
   | [], initFn => pure initFn
-  | (k, v) :: rest, initFn =>
-    match v with
-    | .func id => do
-      let fr ← (match (← get).funcs[id]? with
-        | some fr => pure fr
-        | none => throw (Sig.unsupported "dangling function id"))
-      let isInit := keyEq k (.str initName)
-      let sup ← (if isInit && !initSuper.isEmpty then do pure (some (← newListLit initSuper)) else pure none)
-      let s ← get
-      set { s with funcs := s.funcs.push { fr with this := some (.map obj), super := sup } }
-      let nf := Val.func s.funcs.size
-      setMap obj (mapStore (← getMap obj) k nf)
-      copyProps obj initSuper rest (if isInit then nf else initFn)
-    | _ => do
-      setMap obj (mapStore (← getMap obj) k v)
-      copyProps obj initSuper rest initFn
+  | (k, v) :: rest, initFn => do
+    let nv ← copyProp obj initSuper k v
+    copyProps obj initSuper rest (if isFunc v && keyEq k (.str initName) then nv else initFn)
 
 /-- the loop over the "super" list: `rec` adds one super template to the object and returns (its init or
     null, the Go error variable); elements that are not maps are skipped; every call overwrites the error -/
